@@ -36,6 +36,7 @@ type seqOpts struct {
 	AdvChunk  bool // advance the clock on chunked stacks too
 	TwoTier   bool // only the L1/L2 configurations
 	GetE      bool // include get-with-expiry among the generated commands
+	Directed  bool // also run the directed mixed-tier multi-key gets
 	Probe     func(sc Scenario, i int, st *Stack, d *Driver, ob StepObs) []Violation
 }
 
@@ -97,6 +98,8 @@ func describeScenario(sc Scenario) map[string]interface{} {
 			steps = append(steps, s.Conn+": "+s.Cmd.Describe())
 		case "advance":
 			steps = append(steps, fmt.Sprintf("advance %ds", s.Secs))
+		case "sleep":
+			steps = append(steps, fmt.Sprintf("sleep %ds (real time)", s.Secs))
 		case "fault":
 			steps = append(steps, "fault "+s.Fault.String())
 		default:
@@ -142,9 +145,18 @@ func runSequences(rep *Report, tier string, seed int64, perCfg int, o seqOpts, a
 		if o.TwoTier && cfg.Orca != "l1l2" {
 			continue
 		}
-		for n := 0; n < perCfg; n++ {
-			g := &Gen{r: rand.New(rand.NewSource(seed*1000003 + int64(ci)*7919 + int64(n))), getE: o.GetE}
-			sc := genSequence(g, fmt.Sprintf("%s-%d-%d", rep.Property, ci, n), cfg, o)
+		var directed []Scenario
+		if o.Directed && cfg.Orca == "l1l2" {
+			directed = mixedTierGets(cfg, fmt.Sprintf("%s-%d-mixed", rep.Property, ci))
+		}
+		for n := -len(directed); n < perCfg; n++ {
+			var sc Scenario
+			if n < 0 {
+				sc = directed[n+len(directed)]
+			} else {
+				g := &Gen{r: rand.New(rand.NewSource(seed*1000003 + int64(ci)*7919 + int64(n))), getE: o.GetE}
+				sc = genSequence(g, fmt.Sprintf("%s-%d-%d", rep.Property, ci, n), cfg, o)
+			}
 			sc.Probe = o.Probe
 			var out Outcome
 			for attempt := 0; attempt < 3; attempt++ {
@@ -205,14 +217,53 @@ func runSequences(rep *Report, tier string, seed int64, perCfg int, o seqOpts, a
 	rep.Distinct = len(distinct)
 }
 
+// mixedTierGets: multi-key gets whose keys are spread over the tiers — `a` held by L1 and L2, `b` by
+// L2 only (lost in L1 before every get), `c` nowhere — in every order, with the quiet patterns of
+// a binary batch, on a binary and a text connection of the main port and a binary connection of
+// the batch port. (A get of the main port puts `b` back into L1: it is lost again before the next.)
+func mixedTierGets(cfg StackCfg, id string) []Scenario {
+	sc := Scenario{ID: id, Stack: cfg}
+	sc.Conns = []ConnCfg{{ID: "m", Port: "main", Proto: "bin"}, {ID: "t", Port: "main", Proto: "text"}, {ID: "B", Port: "batch", Proto: "bin"}}
+	feed := func(conn string, c Command) { sc.Steps = append(sc.Steps, Step{Kind: "feed", Conn: conn, Cmd: c}) }
+	feed("m", Command{Kind: "set", Key: []byte("a"), Flags: 3, Data: []byte("value-of-a"), Opaque: 1})
+	feed("m", Command{Kind: "set", Key: []byte("b"), Flags: 4, Data: []byte("value-of-b"), Opaque: 2})
+	lose := []byte("b")
+	if cfg.L1 == "chunked" {
+		lose = []byte("b-meta")
+	}
+	keys := [][]byte{[]byte("a"), []byte("b"), []byte("c")}
+	perms := [][3]int{{0, 1, 2}, {0, 2, 1}, {1, 0, 2}, {1, 2, 0}, {2, 0, 1}, {2, 1, 0}}
+	opq := uint32(100)
+	for pi, pm := range perms {
+		for _, conn := range []string{"m", "t", "B"} {
+			sc.Steps = append(sc.Steps, Step{Kind: "evict", Tier: "L1", Key: lose})
+			c := Command{Kind: "get"}
+			for i, ki := range pm {
+				opq++
+				gk := GetKey{Key: keys[ki], Opaque: opq}
+				if conn != "t" {
+					gk.Quiet = i < 2 || pi%2 == 0
+				}
+				c.Keys = append(c.Keys, gk)
+			}
+			if conn != "t" && c.Keys[2].Quiet {
+				opq++
+				c.NoopEnd, c.NoopOpq = true, opq
+			}
+			feed(conn, c)
+		}
+	}
+	return []Scenario{sc}
+}
+
 func init() {
 	checks["C01"] = func(rep *Report, tier string, seed int64) {
 		per, steps := 12, 25
 		if tier == "thorough" {
 			per, steps = 60, 40
 		}
-		rep.Rule = "seeded random command sequences (9 data commands, multi-key and quiet gets, 6-key alphabet, value lengths dense around chunk boundaries, TTL alphabet) on every stack configuration, one command in flight at a time over text/binary x main/batch connections; each step compares reply bytes, both backend request traces and both backend contents with the Lean model; a case is non-trivial when at least one reply carried a value; distinct = distinct (configuration, sequence) pairs"
-		runSequences(rep, tier, seed, per, seqOpts{Steps: steps, MaxChunks: 3, GetE: true}, nil)
+		rep.Rule = "seeded random command sequences (9 data commands, multi-key and quiet gets, 6-key alphabet, value lengths dense around chunk boundaries, TTL alphabet) on every stack configuration (plus, on every two-tier configuration, directed multi-key gets whose keys are spread over the tiers — held by both, by L2 only, by neither — in every order and quiet pattern on both ports and protocols), one command in flight at a time over text/binary x main/batch connections; each step compares reply bytes, both backend request traces and both backend contents with the Lean model; a case is non-trivial when at least one reply carried a value; distinct = distinct (configuration, sequence) pairs"
+		runSequences(rep, tier, seed, per, seqOpts{Steps: steps, MaxChunks: 3, GetE: true, Directed: true}, nil)
 	}
 }
 
